@@ -176,11 +176,11 @@ impl Gen<'_> {
                 44..=47 => Node::with("not", 0, "", vec![self.cmd(rest, c)]),
                 48..=52 if rest >= 2 => {
                     let (a, b) = split(self, rest);
-                    let sc = Ctx { ld: 0, infn: false, ..c };
+                    let sc = Ctx { ld: 0, ..c };
                     Node::with("pipe", 0, "", vec![self.cmd(a, sc), self.cmd(b, sc)])
                 }
                 53..=58 => {
-                    let sc = Ctx { ld: 0, infn: false, ..c };
+                    let sc = Ctx { ld: 0, ..c };
                     Node::with("sub", 0, "", vec![self.cmd(rest, sc)])
                 }
                 59..=65 if rest >= 2 => {
